@@ -532,6 +532,14 @@ func dynName(v ssa.Value) string {
 
 // provablyNonNilErr: v is an error that cannot be nil at block b.
 func provablyNonNilErr(v ssa.Value, b *ssa.BasicBlock) bool {
+	return provablyNonNilErrRec(v, b, map[ssa.Value]bool{})
+}
+
+func provablyNonNilErrRec(v ssa.Value, b *ssa.BasicBlock, seen map[ssa.Value]bool) bool {
+	if seen[v] {
+		return false
+	}
+	seen[v] = true
 	if _, ok := v.(*ssa.MakeInterface); ok {
 		return true // a concrete error value boxed here
 	}
@@ -545,7 +553,7 @@ func provablyNonNilErr(v ssa.Value, b *ssa.BasicBlock) bool {
 	if p, ok := v.(*ssa.Phi); ok {
 		all := true
 		for i, e := range p.Edges {
-			if !provablyNonNilErr(e, p.Block().Preds[i]) {
+			if !provablyNonNilErrRec(e, p.Block().Preds[i], seen) {
 				all = false
 			}
 		}
